@@ -63,6 +63,14 @@ def build(tier, ctx):
         for i in range(0, len(seqs6), 16):
             tasks.append({"seqs": seqs6[i:i + 16], "bs": [1, 2, 3, 7],
                           "maxruns": 2})
+    # scale: batches around 999/1000 distinct ids, re-ingested (a second run
+    # has to recognise every stored id)
+    sizes = [(999, 1000), (1000, 1000), (1001, 1000), (1001, 2000),
+             (2001, 1000), (1500, 5000)]
+    if tier == "thorough":
+        sizes += [(998, 999), (2000, 1000), (3001, 3001), (1999, 999)]
+    for sz in sizes:
+        tasks.append({"scale": [sz], "seqs": []})
     return tasks
 
 
@@ -132,7 +140,57 @@ def dup_classes(seq, bs, cuts):
     return out
 
 
+def run_scale(n, bs):
+    """n distinct spans (chain of parents) ingested twice into one file-backed
+    store: around the classic SQLite bound-variable limits (999 / 1000)"""
+    d = impl_otel.scratch_dir()
+    db = os.path.join(d, "x.db")
+    spans = [dict(job_name="n", job_id=f"j{i // 4}", event_type="t",
+                  event_id=f"s{i}", start_timestamp=i, end_timestamp=i + 1,
+                  application_name="a",
+                  parent_event_id=None if i % 4 == 0 else f"s{i - 1}")
+             for i in range(n)]
+    exp_nodes = sorted((s["event_id"], "t", "n", s["job_id"],
+                        s["start_timestamp"], s["end_timestamp"], "a",
+                        s["parent_event_id"]) for s in spans)
+    exp_assoc = sorted((s["parent_event_id"], s["event_id"]) for s in spans
+                       if s["parent_event_id"])
+    problems = []
+    try:
+        for run in (1, 2):
+            h = impl_otel.new_holder(f"sqlite:///{db}", batch_size=bs)
+            try:
+                impl_otel.ingest(h, spans)
+            except Exception as e:
+                problems.append(["exception", type(e).__name__,
+                                 str(e)[:160], run])
+                h.engine.dispose()
+                break
+            got = impl_otel.dump_nodes(h)
+            h.engine.dispose()
+            if got != (exp_nodes, exp_assoc):
+                problems.append(["tables_differ", run, len(got[0]),
+                                 len(got[1])])
+                break
+    finally:
+        if os.path.exists(db):
+            os.remove(db)
+        os.rmdir(d)
+    return problems
+
+
 def handle(task):
+    if task.get("scale"):
+        bad = []
+        for n, bs in task["scale"]:
+            p = run_scale(n, bs)
+            if p:
+                bad.append({"seq": f"{n} distinct spans ingested twice",
+                            "bs": bs, "cuts": [0, n, 2 * n], "problems": p,
+                            "scale": [n, bs]})
+        return {"n": len(task["scale"]), "transitions": sum(
+            2 * n for n, _ in task["scale"]), "bad": bad, "states": [],
+            "classes": {}, "fallback": 0, "scale_runs": len(task["scale"])}
     _install_counters()
     _counters.clear()
     d = impl_otel.scratch_dir()
@@ -189,9 +247,11 @@ def collect(tier, tasks, results, ctx):
                 "key": input_key(["C10", b["seq"], b["bs"], b["cuts"]]),
                 "what": f"seq={b['seq']} batch={b['bs']} runs={b['cuts']}: "
                         f"{b['problems'][0][:2]}",
-                "input": {"seq": b["seq"], "bs": b["bs"], "cuts": b["cuts"]},
+                "input": {"seq": b["seq"], "bs": b["bs"], "cuts": b["cuts"],
+                          "scale": b.get("scale")},
                 "observed": b["problems"],
-                "expected": reference([tuple(x) for x in b["seq"]])})
+                "expected": None if b.get("scale") else
+                reference([tuple(x) for x in b["seq"]])})
     he = None
     for c in ("inside_batch", "across_batches", "across_runs"):
         if not classes.get(c):
@@ -206,7 +266,8 @@ def collect(tier, tasks, results, ctx):
                 "variants up to the length bound x batch sizes x splits into "
                 "ingestion runs; non-trivial = distinct sequences containing "
                 "at least one duplicate id",
-        "samples": [{"seq": tasks[-1]["seqs"][-1], "batch_sizes": "1..L+1",
+        "samples": [{"seq": [t for t in tasks if t["seqs"]][-1]["seqs"][-1],
+                     "batch_sizes": "1..L+1",
                      "runs": "all splits into <= 3 runs"}],
         "exhaustive": True,
         "bounds": {"tier": tier,
@@ -215,6 +276,8 @@ def collect(tier, tasks, results, ctx):
                    "batch_sizes": "1..L+1", "runs": "1..3"},
         "sequences": nseq, "duplicate_placements": classes,
         "integrity_fallbacks_taken": fallback,
+        "scale_runs_around_999_1000_ids": sum(
+            r.get("scale_runs", 0) for r in results),
         "states_meaning": "distinct table contents (nodes, NODE_ASSOCIATION) "
                           "observed after an ingestion run; transitions = "
                           "save_data operations executed by the real code",
@@ -227,6 +290,9 @@ def collect(tier, tasks, results, ctx):
 
 def replay(rec, ctx):
     i = rec["input"]
+    if i.get("scale"):
+        p = run_scale(*i["scale"])
+        return bool(p), repr(p)[:300]
     d = impl_otel.scratch_dir()
     problems, _ = run_case([tuple(x) for x in i["seq"]], i["bs"],
                            tuple(i["cuts"]), os.path.join(d, "x.db"))
